@@ -17,6 +17,7 @@ package header
 import (
 	"net"
 	"net/http"
+	"strings"
 
 	"github.com/saucelabs/forwarder/internal/martian"
 )
@@ -52,7 +53,8 @@ func NewForwardedModifier() martian.RequestModifier {
 				xff = req.RemoteAddr
 			}
 
-			if v := req.Header.Get("X-Forwarded-For"); v != "" {
+			// The list may be spread over several field lines.
+			if v := strings.Join(req.Header.Values("X-Forwarded-For"), ", "); v != "" {
 				xff = v + ", " + xff
 			}
 
